@@ -81,7 +81,8 @@ def run_merge_check(sc, tier, pid, enforce, level, text_extra, controls):
         runs_all = runs + gen_runs
     else:
         runs_all = runs
-    rej, mono, st = vlib.validate_lenient(sc, "MergeTrace", "merge.cfg", runs_all, "merge", cfg_text=cfg_text, chunk_events=8000)
+    log("merged %d sets on the real merger after %.0f s; TLC validates" % (len(runs_all), time.time() - t0))
+    rej, mono, st = vlib.validate_lenient(sc, "MergeTrace", "merge.cfg", runs_all, "merge", cfg_text=cfg_text, chunk_events=8000, parallel=14)
     for r, idx, ev, why in rej:
         sig, what = classify(pid, r, idx, ev, why)
         V.violation(sig, what, {"set": r["reset"], "result": {k: ev[k] for k in ("perm", "merger", "ok", "panic", "err")}, "why": why,
